@@ -19,6 +19,11 @@ def SkipFaithful (t : Tbl) : Prop :=
     ∀ tls, mkTableLines (breakFields t.fmt.cols) Option.none t.records = .ok tls →
       applyLimits t.fmt.limF t.fmt.limL tls t.records.length = (tls, 0)
 
+/-- a `False` skipped-lines flag was set by a print: the body lines of the table can be made -/
+def SkipWitness (t : Tbl) : Prop :=
+  t.fmt.anySkipped = some false →
+    ∃ tls, mkTableLines (breakFields t.fmt.cols) Option.none t.records = .ok tls
+
 /-- every column shows a field of the table (found under its name) with a modifier its type accepts -/
 def ColsOk (t : Tbl) : Prop :=
   ∀ c ∈ t.fmt.cols, findField t.fmt.fields c.field.name = some c.field ∧
@@ -38,6 +43,7 @@ structure Inv (a : CtorArgs) (specs : List FieldSpec) (t : Tbl) : Prop where
   colsOk : ColsOk t
   widths : WidthsFaithful t
   skip : SkipFaithful t
+  skipWit : SkipWitness t
 
 theorem mkFields_names (pos : Nat) (specs : List FieldSpec) :
     (mkFields pos specs).map (·.name) = specs.map (·.name) := by
@@ -170,6 +176,9 @@ theorem dfltCols_ok (fields : List Field) (h : hasDup (fields.map (·.name)) = f
 theorem skipFaithful_of_none (t : Tbl) (h : t.fmt.anySkipped = Option.none) : SkipFaithful t := by
   intro _ hs; rw [h] at hs; cases hs
 
+theorem skipWitness_of_none (t : Tbl) (h : t.fmt.anySkipped = Option.none) : SkipWitness t := by
+  intro hs; rw [h] at hs; cases hs
+
 /-- `PPTable(records, fields=[…], …)` establishes the invariants -/
 theorem mkTable_inv (a : CtorArgs) (specs : List FieldSpec) (ha : a.fields = some specs) (t : Tbl)
     (h : mkTable a = .ok t) : Inv a specs t := by
@@ -206,17 +215,18 @@ theorem mkTable_inv (a : CtorArgs) (specs : List FieldSpec) (ha : a.fields = som
     cases hs : a.skip with
     | none => rw [hs] at hc; exact hf2 c hc
     | some names => rw [hs] at hc; exact hf2 c (List.mem_filter.mp hc).1
-  refine ⟨hnd, rfl, rfl, rfl, hf1, ?_, ?_, ?_⟩
+  refine ⟨hnd, rfl, rfl, rfl, hf1, ?_, ?_, ?_, ?_⟩
   · intro c hc
     simp only [hf1]
     exact ⟨(hcols c hc).1, (hcols c hc).2.1⟩
   · exact widthsFaithful_of_fresh _ (fun c hc => (hcols c hc).2.2)
   · exact skipFaithful_of_none _ rfl
+  · exact skipWitness_of_none _ rfl
 
 theorem inv_congr_args (a a' : CtorArgs) (specs : List FieldSpec) (t : Tbl) (h : Inv a' specs t)
     (h1 : a'.records = a.records) (h2 : a'.header = a.header) (h3 : a'.footer = a.footer) : Inv a specs t :=
   ⟨h.nodup, h.records_eq.trans h1, h.header_eq.trans h2,
-   by rw [h.footer_eq]; simp [footerOf, h1, h3], h.fields_eq, h.colsOk, h.widths, h.skip⟩
+   by rw [h.footer_eq]; simp [footerOf, h1, h3], h.fields_eq, h.colsOk, h.widths, h.skip, h.skipWit⟩
 
 /-- `table.fmt = s` preserves the invariants, whatever `s` is -/
 theorem applySetter_inv (a : CtorArgs) (specs : List FieldSpec) (t t' : Tbl) (s : List Char)
@@ -244,10 +254,11 @@ theorem applySetter_inv (a : CtorArgs) (specs : List FieldSpec) (t t' : Tbl) (s 
     | explicit cs =>
       simp only [hp] at hcols
       exact setterCols_ok _ _ _ hcols
-  refine ⟨hi.nodup, hi.records_eq, hi.header_eq, hi.footer_eq, hi.fields_eq, ?_, ?_, ?_⟩
+  refine ⟨hi.nodup, hi.records_eq, hi.header_eq, hi.footer_eq, hi.fields_eq, ?_, ?_, ?_, ?_⟩
   · intro c hcm; exact ⟨(hc c hcm).1, (hc c hcm).2.1⟩
   · exact widthsFaithful_of_fresh _ (fun c hcm => (hc c hcm).2.2)
   · exact skipFaithful_of_none _ rfl
+  · exact skipWitness_of_none _ rfl
 
 theorem applyLimits_natLim (f : Fmt) (h : NatLim f) (tls : List TLine) (n : Nat) (hb : brkOk tls)
     (hn : tls.countP TLine.isRec = n) :
@@ -277,7 +288,7 @@ theorem render_inv (a : CtorArgs) (specs : List FieldSpec) (t t' : Tbl) (ls : Li
   have hst := R.state_eq
   have hbf : breakFields t'.fmt.cols = breakFields t.fmt.cols := by
     rw [hst]; simp only [printed]; rw [breakFields_setWidths, hcols]
-  refine ⟨hi.nodup, ?_, ?_, ?_, ?_, ?_, widthsFaithful_render h hi.widths, ?_⟩
+  refine ⟨hi.nodup, ?_, ?_, ?_, ?_, ?_, widthsFaithful_render h hi.widths, ?_, ?_⟩
   · rw [hst]; exact hi.records_eq
   · rw [hst]; exact hi.header_eq
   · rw [hst]; exact hi.footer_eq
@@ -309,6 +320,9 @@ theorem render_inv (a : CtorArgs) (specs : List FieldSpec) (t t' : Tbl) (ls : Li
     · rw [hst] at hs
       simp only [printed, Option.some.injEq, decide_eq_false_iff_not] at hs
       exact absurd hpos hs
+  · intro _
+    have hrec : t'.records = t.records := by rw [hst]; rfl
+    exact ⟨tls, by rw [hbf, hrec]; exact R.tls_eq⟩
 
 /-- a table built from a format object (`fmt_obj=`) satisfies the invariants, whatever records, limits
 and skipped columns it is given -/
@@ -330,11 +344,12 @@ theorem fromFmt_inv (a : CtorArgs) (specs : List FieldSpec) (f : Fmt)
     simp only [List.mem_map] at hmem
     obtain ⟨c0, hc0, rfl⟩ := hmem
     exact ⟨hc c0 hc0, rfl⟩
-  refine ⟨hnd, rfl, rfl, ?_, hf, ?_, ?_, ?_⟩
+  refine ⟨hnd, rfl, rfl, ?_, hf, ?_, ?_, ?_, ?_⟩
   · simp only [mkTableFromFmt, footerOf]; cases a.footer <;> rfl
   · intro c hcm; exact (hcols c hcm).1
   · exact widthsFaithful_of_fresh _ (fun c hcm => (hcols c hcm).2)
   · exact skipFaithful_of_none _ rfl
+  · exact skipWitness_of_none _ rfl
 
 theorem directCols_ok (fields : List Field) (cs : List ColSpec) (cols : List Col)
     (h : directCols fields cs = .ok cols) :
@@ -367,14 +382,164 @@ theorem mkTableDirect_inv (a : CtorArgs) (specs : List FieldSpec) (ha : a.fields
   exact fromFmt_inv a specs ⟨t0.fmt.fields, cols, lims.1, lims.2, Option.none⟩ hi0.nodup hi0.fields_eq
     (directCols_ok _ _ _ hcols) Option.none Option.none
 
+/-! ### removing columns keeps a `False` skipped-lines flag true -/
+
+/-- the values of the fields that pass `q`, out of the values of all fields -/
+def sel (q : Field → Bool) : List Field → List Val → List Val
+  | f :: fs, v :: vs => if q f then v :: sel q fs vs else sel q fs vs
+  | _, _ => []
+
+theorem fetchAll_length (fs : List Field) (r : Record) (vs : List Val) (h : fetchAll fs r = .ok vs) :
+    vs.length = fs.length := by
+  induction fs generalizing vs with
+  | nil => simp [fetchAll] at h; subst h; rfl
+  | cons f fs ih =>
+    simp only [fetchAll, bind_ok] at h
+    obtain ⟨v, _, rest, hr, h⟩ := h
+    cases h
+    simp [ih rest hr]
+
+theorem fetchAll_filter (q : Field → Bool) (fs : List Field) (r : Record) (vs : List Val)
+    (h : fetchAll fs r = .ok vs) : fetchAll (fs.filter q) r = .ok (sel q fs vs) := by
+  induction fs generalizing vs with
+  | nil => simp [fetchAll] at h; subst h; rfl
+  | cons f fs ih =>
+    simp only [fetchAll, bind_ok] at h
+    obtain ⟨v, hv, rest, hr, h⟩ := h
+    cases h
+    by_cases hq : q f = true
+    · simp [hq, fetchAll, hv, ih rest hr, sel, bind, Except.bind]
+    · simp [hq, ih rest hr, sel]
+
+theorem listPyEq_length (p c : List Val) (h : listPyEq p c = true) : p.length = c.length := by
+  induction p generalizing c with
+  | nil => cases c <;> simp_all [listPyEq]
+  | cons x xs ih =>
+    cases c with
+    | nil => simp [listPyEq] at h
+    | cons y ys => simp only [listPyEq, Bool.and_eq_true] at h; simp [ih ys h.2]
+
+theorem listPyEq_sel (q : Field → Bool) (fs : List Field) (p c : List Val) (h : listPyEq p c = true) :
+    listPyEq (sel q fs p) (sel q fs c) = true := by
+  induction fs generalizing p c with
+  | nil => cases p <;> cases c <;> simp [sel, listPyEq]
+  | cons f fs ih =>
+    cases p with
+    | nil => cases c <;> simp_all [sel, listPyEq]
+    | cons x xs =>
+      cases c with
+      | nil => simp [listPyEq] at h
+      | cons y ys =>
+        simp only [listPyEq, Bool.and_eq_true] at h
+        by_cases hq : q f = true
+        · simp [sel, hq, listPyEq, h.1, ih xs ys h.2]
+        · simp [sel, hq, ih xs ys h.2]
+
+/-- with fewer break-by fields the body can still be made and has no more lines -/
+theorem mkTableLines_filter (q : Field → Bool) (bfs : List Field) (prev : Option (List Val))
+    (rs : List Record) (tls : List TLine) (h : mkTableLines bfs prev rs = .ok tls) :
+    ∃ tls', mkTableLines (bfs.filter q) (prev.map (sel q bfs)) rs = .ok tls' ∧ tls'.length ≤ tls.length := by
+  induction rs generalizing prev tls with
+  | nil => simp [mkTableLines] at h; subst h; exact ⟨[], rfl, Nat.le_refl _⟩
+  | cons r rs ih =>
+    simp only [mkTableLines, bind_ok] at h
+    obtain ⟨cur, hcur, rest, hr, h⟩ := h
+    obtain ⟨rest', hr', hle⟩ := ih (some cur) rest hr
+    have hcur' := fetchAll_filter q bfs r cur hcur
+    simp only [Option.map_some] at hr'
+    cases prev with
+    | none =>
+      simp only [Except.ok.injEq] at h
+      subst h
+      refine ⟨TLine.row r :: rest', ?_, by simp; omega⟩
+      simp [mkTableLines, hcur', hr', bind, Except.bind]
+    | some p =>
+      by_cases hp : listPyEq p cur = true
+      · simp only [hp, if_true, Except.ok.injEq] at h
+        subst h
+        refine ⟨TLine.row r :: rest', ?_, by simp; omega⟩
+        simp [mkTableLines, hcur', hr', listPyEq_sel q bfs p cur hp, bind, Except.bind]
+      · have hpf : listPyEq p cur = false := by simpa using hp
+        simp only [hpf, Bool.false_eq_true, if_false, Except.ok.injEq] at h
+        subst h
+        by_cases hp' : listPyEq (sel q bfs p) (sel q bfs cur) = true
+        · refine ⟨TLine.row r :: rest', ?_, by simp; omega⟩
+          simp [mkTableLines, hcur', hr', hp', bind, Except.bind]
+        · refine ⟨TLine.brk :: TLine.row r :: rest', ?_, by simp; omega⟩
+          simp [mkTableLines, hcur', hr', hp', bind, Except.bind]
+
+theorem breakFields_filter (cols : List Col) (names : List (List Char)) :
+    breakFields (cols.filter fun c => !names.contains c.field.name)
+      = (breakFields cols).filter fun f => !names.contains f.name := by
+  simp only [breakFields, List.filter_map, List.filter_filter]
+  congr 1
+  apply List.filter_congr
+  intro x _
+  simp [Function.comp, Bool.and_comm]
+
+theorem applyLimits_shorter (f : Fmt) (hnat : NatLim f) (tls tls' : List TLine) (n : Nat)
+    (h : applyLimits f.limF f.limL tls n = (tls, 0)) (hle : tls'.length ≤ tls.length) :
+    applyLimits f.limF f.limL tls' n = (tls', 0) := by
+  cases hF : f.limF with
+  | none => simp [applyLimits]
+  | some a =>
+    cases hL : f.limL with
+    | none => simp [applyLimits]
+    | some b =>
+      obtain ⟨first, rfl⟩ := Int.eq_ofNat_of_zero_le (hnat.1 a hF)
+      obtain ⟨last, rfl⟩ := Int.eq_ofNat_of_zero_le (hnat.2 b hL)
+      rw [hF, hL, applyLimits_nat] at h
+      rw [applyLimits_nat]
+      by_cases hgt : tls.length > first + last + 1
+      · simp only [hgt, if_true, Prod.mk.injEq] at h
+        have := congrArg List.length h.1
+        simp only [List.length_append, List.length_take, List.length_cons, List.length_nil, List.length_drop] at this
+        omega
+      · have : ¬ tls'.length > first + last + 1 := by omega
+        simp [this]
+
+/-- `table.remove_columns(names)` preserves the invariants, in any state -/
+theorem removeCols_inv (a : CtorArgs) (specs : List FieldSpec) (t : Tbl) (names : List (List Char))
+    (hi : Inv a specs t) : Inv a specs (removeCols t names) := by
+  have hmem : ∀ c ∈ (removeCols t names).fmt.cols, ∃ c0 ∈ t.fmt.cols, c = { c0 with width := Option.none } := by
+    intro c hc
+    simp only [removeCols] at hc
+    have := (List.mem_filter.mp hc).1
+    simp only [List.mem_map] at this
+    obtain ⟨c0, hc0, rfl⟩ := this
+    exact ⟨c0, hc0, rfl⟩
+  have hbf : breakFields (removeCols t names).fmt.cols
+      = (breakFields t.fmt.cols).filter fun f => !names.contains f.name := by
+    simp only [removeCols]
+    rw [breakFields_filter, breakFields_map_width t.fmt.cols (fun _ => Option.none)]
+  have hwit : t.fmt.anySkipped = some false → ∀ tls', mkTableLines (breakFields (removeCols t names).fmt.cols)
+      Option.none t.records = .ok tls' →
+      ∃ tls, mkTableLines (breakFields t.fmt.cols) Option.none t.records = .ok tls ∧ tls'.length ≤ tls.length := by
+    intro hs tls' htls'
+    obtain ⟨tls, htls⟩ := hi.skipWit hs
+    obtain ⟨x, hx, hle⟩ := mkTableLines_filter (fun f => !names.contains f.name) _ Option.none _ tls htls
+    simp only [Option.map_none] at hx
+    rw [hbf, hx] at htls'
+    cases htls'
+    exact ⟨tls, htls, hle⟩
+  refine ⟨hi.nodup, hi.records_eq, hi.header_eq, hi.footer_eq, hi.fields_eq, ?_, ?_, ?_, ?_⟩
+  · intro c hc; obtain ⟨c0, hc0, rfl⟩ := hmem c hc; exact hi.colsOk c0 hc0
+  · exact widthsFaithful_of_fresh _ (fun c hc => by obtain ⟨c0, _, rfl⟩ := hmem c hc; rfl)
+  · intro hnat hs tls' htls'
+    obtain ⟨tls, htls, hle⟩ := hwit hs tls' htls'
+    exact applyLimits_shorter t.fmt hnat tls tls' _ (hi.skip hnat hs tls htls) hle
+  · intro hs
+    obtain ⟨tls, htls⟩ := hi.skipWit hs
+    obtain ⟨x, hx, _⟩ := mkTableLines_filter (fun f => !names.contains f.name) _ Option.none _ tls htls
+    simp only [Option.map_none] at hx
+    exact ⟨x, by rw [hbf]; exact hx⟩
+
 /-- The states a table goes through: constructed from a format string (`new`) or from column objects
 (`direct`), printed, re-formatted with any string, re-constructed from any string, or built with
 `fmt_obj=` from the format of any other reachable table with the same fields (`fromObj`: siblings
 made from one format object, with their own records, header, footer, limits and skipped columns);
 `setLimits`: `table.fmt.set_limits(…)` in any state (it forgets the flag and the widths);
-`removeFresh`: `table.remove_columns(names)` on a table whose widths are not negotiated. (Removing
-columns from a *printed* table is left out on purpose: the widths stay as negotiated for the rows that
-were visible with the removed break-by column — see the report.) -/
+`removeCols`: `table.remove_columns(names)` in any state (it forgets the widths, keeps the flag). -/
 inductive Reach : CtorArgs → Tbl → Prop where
   | new (a : CtorArgs) (t : Tbl) : mkTable a = .ok t → Reach a t
   | direct (a : CtorArgs) (cs : List ColSpec) (lims : Option Int × Option Int) (t : Tbl) :
@@ -384,8 +549,7 @@ inductive Reach : CtorArgs → Tbl → Prop where
   | ctor (a : CtorArgs) (t t' : Tbl) (s : List Char) : Reach a t →
       mkTable { a with fmt := some s, limits := Option.none, skip := Option.none } = .ok t' → Reach a t'
   | setLimits (a : CtorArgs) (t : Tbl) (x y : Option Int) : Reach a t → Reach a (setLimits t x y)
-  | removeFresh (a : CtorArgs) (t : Tbl) (names : List (List Char)) : Reach a t →
-      (∀ c ∈ t.fmt.cols, c.width = Option.none) → t.fmt.anySkipped = Option.none → Reach a (removeCols t names)
+  | removeCols (a : CtorArgs) (t : Tbl) (names : List (List Char)) : Reach a t → Reach a (removeCols t names)
   | fromObj (b a : CtorArgs) (u : Tbl) (lims : Option (Option Int × Option Int))
       (skip : Option (List (List Char))) : Reach b u → a.fields = b.fields →
       Reach a (mkTableFromFmt u.fmt a.records lims skip a.header a.footer)
@@ -411,26 +575,20 @@ theorem reach_inv (a : CtorArgs) (specs : List FieldSpec) (ha : a.fields = some 
     exact ⟨hi.nodup, hi.records_eq, hi.header_eq, hi.footer_eq, hi.fields_eq,
       fun c hc => by obtain ⟨c0, hc0, rfl⟩ := hmem c hc; exact hi.colsOk c0 hc0,
       widthsFaithful_of_fresh _ (fun c hc => by obtain ⟨c0, _, rfl⟩ := hmem c hc; rfl),
-      skipFaithful_of_none _ rfl⟩
-  | removeFresh a t names _ hw hs ih =>
-    have hi := ih ha
-    have hsub : ∀ c ∈ (removeCols t names).fmt.cols, c ∈ t.fmt.cols := by
-      intro c hc; simp only [removeCols] at hc; exact (List.mem_filter.mp hc).1
-    exact ⟨hi.nodup, hi.records_eq, hi.header_eq, hi.footer_eq, hi.fields_eq,
-      fun c hc => hi.colsOk c (hsub c hc),
-      widthsFaithful_of_fresh _ (fun c hc => hw c (hsub c hc)),
-      skipFaithful_of_none _ hs⟩
+      skipFaithful_of_none _ rfl, skipWitness_of_none _ rfl⟩
+  | removeCols a t names _ ih => exact removeCols_inv a specs t names (ih ha)
   | fromObj b a u lims skip _ hab ih =>
     have hu := ih (by rw [← hab]; exact ha)
     exact fromFmt_inv a specs u.fmt hu.nodup hu.fields_eq hu.colsOk lims skip
 
 /-! ## reading the printed format back -/
 
-theorem nameOk_of_all (s : List Char) (h : ∀ c ∈ s, c ∉ forbidden ∧ isSpace c = false) : NameOk s :=
-  ⟨fun c hc => (h c hc).1, edgeOk_of_all s fun c hc => (h c hc).2⟩
+theorem nameOk_of_all (s : List Char) (h : ∀ c ∈ s, c ∉ forbidden ∧ isSpace c = false ∧ c ≠ '!') : NameOk s :=
+  ⟨fun c hc => (h c hc).1, edgeOk_of_all s fun c hc => (h c hc).2.1,
+   fun e => (h '!' (List.mem_of_getLast? e)).2.2 rfl⟩
 
-theorem enumMods_nameOk : NameOk Gen.C12.enumModFull ∧ NameOk Gen.C12.enumModVal ∧ NameOk Gen.C12.enumModName :=
-  ⟨nameOk_of_all _ (by decide), nameOk_of_all _ (by decide), nameOk_of_all _ (by decide)⟩
+theorem enumMods_modOk : ModOk Gen.C12.enumModFull ∧ ModOk Gen.C12.enumModVal ∧ ModOk Gen.C12.enumModName :=
+  ⟨modOk_of_all _ (by decide), modOk_of_all _ (by decide), modOk_of_all _ (by decide)⟩
 
 theorem verified_modifier_modOk (ft : FType) (m : List Char) (h : verifyModifier ft (some m) = .ok ())
     (hcustom : ∀ cu, ft = .custom cu → ModOk m) : ModOk m := by
@@ -440,11 +598,11 @@ theorem verified_modifier_modOk (ft : FType) (m : List Char) (h : verifyModifier
   | enum e =>
     simp only [verifyModifier, enumMod?] at h
     by_cases h1 : m = Gen.C12.enumModFull
-    · rw [h1]; exact enumMods_nameOk.1.modOk
+    · rw [h1]; exact enumMods_modOk.1
     · by_cases h2 : m = Gen.C12.enumModVal
-      · rw [h2]; exact enumMods_nameOk.2.1.modOk
+      · rw [h2]; exact enumMods_modOk.2.1
       · by_cases h3 : m = Gen.C12.enumModName
-        · rw [h3]; exact enumMods_nameOk.2.2.modOk
+        · rw [h3]; exact enumMods_modOk.2.2
         · simp [h1, h2, h3] at h
 
 /-- the modifiers of the columns of user-written field types (free text) are expressible; the built-in
@@ -602,25 +760,22 @@ theorem genTitleLines_none (name : List Char) (h1 : '\n' ∉ name) (h2 : EdgeOk 
   simp [genTitleLines, splitOn_no_sep _ _ h1, strip_id _ h2]
 
 theorem colName_ok (k : Nat) : '\n' ∉ Gen.C12.colPrefix ++ natToDec k ∧ NameOk (Gen.C12.colPrefix ++ natToDec k) := by
-  have hp : ∀ c ∈ Gen.C12.colPrefix, c ≠ '\n' ∧ c ∉ forbidden ∧ isSpace c = false := by decide
-  have hd : ∀ c ∈ natToDec k, c ≠ '\n' ∧ c ∉ forbidden ∧ isSpace c = false := by
+  have hp : ∀ c ∈ Gen.C12.colPrefix, c ≠ '\n' ∧ c ∉ forbidden ∧ isSpace c = false ∧ c ≠ '!' := by decide
+  have hd : ∀ c ∈ natToDec k, c ≠ '\n' ∧ c ∉ forbidden ∧ isSpace c = false ∧ c ≠ '!' := by
     intro c hc
     have hdig := natToDec_digits k c hc
     have f := digit_facts c hdig
-    refine ⟨?_, ?_, f.1⟩
+    refine ⟨?_, ?_, f.1, f.2.2.2.2.1⟩
     · intro e; subst e; cases hdig
     · intro hf
       simp only [forbidden, List.mem_cons, List.not_mem_nil, or_false] at hf
-      rcases hf with e | e | e | e | e | e | e | e
+      rcases hf with e | e | e | e | e
       · exact f.2.1 e
       · exact f.2.2.1 e
       · exact f.2.2.2.1 e
-      · exact f.2.2.2.2.1 e
       · exact f.2.2.2.2.2.1 e
       · exact f.2.2.2.2.2.2.1 e
-      · exact f.2.2.2.2.2.2.2.1 e
-      · exact f.2.2.2.2.2.2.2.2.1 e
-  have hall : ∀ c ∈ Gen.C12.colPrefix ++ natToDec k, c ≠ '\n' ∧ c ∉ forbidden ∧ isSpace c = false := by
+  have hall : ∀ c ∈ Gen.C12.colPrefix ++ natToDec k, c ≠ '\n' ∧ c ∉ forbidden ∧ isSpace c = false ∧ c ≠ '!' := by
     intro c hc
     rcases List.mem_append.mp hc with h | h
     · exact hp c h
@@ -633,9 +788,10 @@ theorem dummy_ok : '\n' ∉ Gen.C12.dummyField ∧ NameOk Gen.C12.dummyField := 
   have h2 : Gen.C12.dummyField.head? = some '-' := by decide +kernel
   have h3 : Gen.C12.dummyField.getLast? = some '-' := by decide +kernel
   have hs : isSpace '-' = false := by unfold isSpace; decide
-  refine ⟨h0, h1, ?_, ?_⟩
+  refine ⟨h0, h1, ⟨?_, ?_⟩, ?_⟩
   · intro c hc; rw [h2] at hc; cases hc; exact hs
   · intro c hc; rw [h3] at hc; cases hc; exact hs
+  · rw [h3]; decide
 
 theorem colNFields_names (pos n : Nat) :
     ∀ f ∈ colNFields pos n, ∃ k, pos ≤ k ∧ f.name = Gen.C12.colPrefix ++ natToDec (k + 1) := by
@@ -670,7 +826,7 @@ theorem mkFields_specsOf_colN (pos n : Nat) : mkFields pos (specsOf (colNFields 
   | zero => rfl
   | succ m ih =>
     simp only [colNFields, specsOf, List.map_cons, mkFields] at ih ⊢
-    rw [genTitleLines_none _ (colName_ok _).1 (colName_ok _).2.2]
+    rw [genTitleLines_none _ (colName_ok _).1 (colName_ok _).2.2.1]
     congr 1
     exact ih (pos + 1)
 
@@ -697,7 +853,7 @@ theorem mkTable_fieldless (a : CtorArgs) (ha : a.fields = Option.none)
       have hspec : mkFields 0 (specsOf [⟨Gen.C12.dummyField, FType.dflt, 0, [Val.str Gen.C12.dummyField], false⟩])
           = [⟨Gen.C12.dummyField, FType.dflt, 0, [Val.str Gen.C12.dummyField], false⟩] := by
         simp only [specsOf, List.map_cons, List.map_nil, mkFields]
-        rw [genTitleLines_none _ dummy_ok.1 dummy_ok.2.2]
+        rw [genTitleLines_none _ dummy_ok.1 dummy_ok.2.2.1]
         rfl
       refine ⟨?_, ?_⟩
       · unfold mkTable
@@ -734,7 +890,7 @@ theorem mkTable_fieldless (a : CtorArgs) (ha : a.fields = Option.none)
       have hspec : mkFields 0 (specsOf [⟨Gen.C12.dummyField, FType.dflt, 0, [Val.str Gen.C12.dummyField], false⟩])
           = [⟨Gen.C12.dummyField, FType.dflt, 0, [Val.str Gen.C12.dummyField], false⟩] := by
         simp only [specsOf, List.map_cons, List.map_nil, mkFields]
-        rw [genTitleLines_none _ dummy_ok.1 dummy_ok.2.2]
+        rw [genTitleLines_none _ dummy_ok.1 dummy_ok.2.2.1]
         rfl
       refine ⟨?_, ?_⟩
       · unfold mkTable
